@@ -69,12 +69,17 @@ def _fp(v, depth=0):
 
 
 def _mutable_defaults(fn):
-    """Fingerprint of a function's mutable default arguments (they are evaluated once)."""
+    """Fingerprint of what a function object carries between calls: its mutable
+    default arguments (evaluated once) and attributes hung on the function."""
     vals = list(getattr(fn, "__defaults__", None) or ()) + list((getattr(fn, "__kwdefaults__", None) or {}).values())
     vals = [v for v in vals if isinstance(v, (list, dict, set, bytearray, np.ndarray))]
-    if not vals:
+    try:
+        attrs = {k: v for k, v in vars(fn).items() if not (k.startswith("__") and k.endswith("__"))}
+    except TypeError:
+        attrs = {}
+    if not vals and not attrs:
         return None
-    return _h(repr([_fp(v) for v in vals]).encode())
+    return _h(repr([_fp(v) for v in vals] + sorted((k, _fp(v)) for k, v in attrs.items())).encode())
 
 
 def _interesting(v):
